@@ -113,7 +113,7 @@ class PairCase:
                 oname = "%s.%s_equal" % (self.name, what)
                 if a.shape != b.shape:
                     res["obligations"] += 1
-                    res["failures"].append({"obligation": oname, "what": "shapes differ: %s vs %s" % (a.shape, b.shape), "reproduced": True, "replay": self._native(seed)})
+                    res["failures"].append({"obligation": oname, "what": "shapes differ: %s vs %s" % (a.shape, b.shape), "reproduced": True, "replay": self._native(seed, sess, pc)})
                     continue
                 stop = False
                 for idx in ([()] if a.ndim == 0 else np.ndindex(*a.shape)):
@@ -126,7 +126,7 @@ class PairCase:
                             res["sample"] = {"obligation": oname, "element": list(idx), "lhs": str(x.term())[:150], "rhs": str(y.term())[:150], "backend": v.backend}
                         continue
                     res["obligations"] += 1
-                    rep = self._native(seed)
+                    rep = self._native(seed, sess, pc)
                     if rep.get("reproduced"):
                         res["failures"].append({"obligation": oname, "what": "element %s: %s vs %s; native replay differs" % (list(idx), str(x.term())[:100], str(y.term())[:100]),
                                                 "reproduced": True, "replay": rep, "solver": v.backend, "answer": v.status})
@@ -138,14 +138,27 @@ class PairCase:
                 if stop:
                     break
 
-    def _native(self, seed):
-        """both sides natively on float64 at sampled points"""
+    def _native(self, seed, sess=None, pc=()):
+        """both sides natively on float64: at points ON THE PATH the failing obligation belongs to (values the path condition pins, e.g. an operand element equal to 0,
+        come from a z3 model of it; the rest is sampled), then at sampled points"""
         import random
+        import z3
         from synapgrad.tensor import Tensor
         rng = random.Random("%s|%d" % (self.name, seed))
         rep = {"identity": self.key, "reproduced": False, "points": 0}
-        for _ in range(5):
-            vals = {l.name: np.array([domain_sample(rng, l.domain) for _ in var_names(l.name, l.shape)]).reshape(l.shape) for l in self.leaves}
+        pinned = []
+        if sess is not None and pc:
+            sol = z3.Solver()
+            sol.set("timeout", 3000)
+            sol.add(*sess.pre)
+            sol.add(*pc)
+            if sol.check() == z3.sat:
+                from ..symreal.discharge import _model_env
+                m = _model_env(sol.model())
+                for _ in range(3):
+                    pinned.append({l.name: np.array([m.get(n, domain_sample(rng, l.domain)) for n in var_names(l.name, l.shape)], dtype=np.float64).reshape(l.shape) for l in self.leaves})
+        for k_ in range(5 + len(pinned)):
+            vals = pinned[k_] if k_ < len(pinned) else {l.name: np.array([domain_sample(rng, l.domain) for _ in var_names(l.name, l.shape)]).reshape(l.shape) for l in self.leaves}
             try:
                 with shim.native():
                     outs = []
@@ -406,6 +419,28 @@ def identities(tier):
     cs.append(PairCase("Sequential=composition", {"form": "OrderedDict, same module under two keys"}, [L("x", (2, 2)), L("w", (2, 2)), L("b", (2,))],
                        lambda T: (lambda m: nn.Sequential(OrderedDict([("first", m[0]), ("act", m[1]), ("again", m[0])]))(T["x"]))(mods(T)),
                        lambda T: (lambda m: m[0](m[1](m[0](T["x"]))))(mods(T))))
+    # more modules than one digit can number (names '0'..'11': any ordering by NAME instead of by registration shows), and digit keys given in a non-numeric order
+    class Aff(nn.Module):
+        def __init__(self, c, d):
+            super().__init__()
+            self.c, self.d = c, d
+
+        def forward(self, x):
+            return x * self.c + self.d
+
+    def affs(n):
+        return [Aff(1.0 + 0.25 * i, float(i) - 3.0) for i in range(n)]
+
+    def compose(ms, x):
+        for m in ms:
+            x = m(x)
+        return x
+    for n_ in (11, 12, 23):
+        cs.append(PairCase("Sequential=composition", {"form": "positional, %d modules" % n_}, [L("x", (2,))], lambda T, n_=n_: nn.Sequential(*affs(n_))(T["x"]),
+                           lambda T, n_=n_: compose(affs(n_), T["x"]), functions=("synapgrad.nn.modules.Sequential.forward", "synapgrad.nn.modules.Sequential.__init__")))
+    for keys in (("2", "10", "1"), ("b", "a", "10", "9"), ("01", "1", "0")):
+        cs.append(PairCase("Sequential=composition", {"form": "OrderedDict with keys %s" % (keys,)}, [L("x", (2,))],
+                           lambda T, keys=keys: nn.Sequential(OrderedDict(zip(keys, affs(len(keys)))))(T["x"]), lambda T, keys=keys: compose(affs(len(keys)), T["x"])))
     cs.append(PairCase("Sequential=composition", {"form": "empty"}, [L("x", (2, 2))], lambda T: nn.Sequential()(T["x"]) * 1.0, lambda T: T["x"] * 1.0))
     cs.append(PairCase("Sequential=composition", {"form": "nested"}, [L("x", (2, 2)), L("w", (2, 2)), L("b", (2,))],
                        lambda T: (lambda m: nn.Sequential(nn.Sequential(m[0], m[1]), nn.Sequential(m[2]))(T["x"]))(mods(T)), lambda T: (lambda m: m[2](m[1](m[0](T["x"]))))(mods(T))))
